@@ -142,6 +142,8 @@ pub struct Report {
     pub intended: Option<MInst>,
     /// explicit result id passed, if any
     pub explicit_rid: Option<u32>,
+    /// the explicit id repeats an id already in use (an existing declaration's id or one of the call's own operands)
+    pub explicit_reused: bool,
     pub ip: Ip,
     /// arguments could not be zipped against the grammar: call executed, not judged
     pub mismatch: Option<String>,
@@ -285,6 +287,7 @@ impl Drv {
             panic: None,
             intended: None,
             explicit_rid: None,
+            explicit_reused: false,
             ip: Ip::End,
             mismatch: None,
             fresh_id: None,
@@ -429,6 +432,7 @@ impl Drv {
                     self.type_ids.clear();
                     self.constants.clear();
                     self.typed64.clear();
+                    self.recent_calls.clear();
                     Ret::Unit
                 })
             }
@@ -563,7 +567,27 @@ impl Drv {
                             want.ops = groups.iter().flat_map(|g| g.items.iter().flatten().cloned()).collect();
                         }
                         let has_rid = s.inst(bind.opcode).map(|gi| gi.operands.iter().any(|(k, _)| s.cat(*k) == crate::snapshot::Cat::IdResult)).unwrap_or(false);
-                        let rid_explicit = if bind.has_result_id_param && *explicit_rid { Some(self.fresh_untracked()) } else { None };
+                        // explicit result ids are usually fresh; tiny argument seeds (only the id-discipline workload draws
+                        // them) also re-use the id of an existing type declaration, or one of the request's own operands
+                        let rid_explicit = if bind.has_result_id_param && *explicit_rid {
+                            let own_operand = want.ops.iter().find_map(|o| match o {
+                                MOp::W(k, v) if *k == s.k_idref => Some(*v),
+                                _ => None,
+                            });
+                            match (*arg_seed < 64 && bind.class == MClass::Type, arg_seed % 4) {
+                                (true, 2) if !self.type_ids.is_empty() => {
+                                    rep.explicit_reused = true;
+                                    Some(self.type_ids[(arg_seed / 4) as usize % self.type_ids.len()])
+                                }
+                                (true, 3) if own_operand.is_some() && arg_seed % 8 == 7 => {
+                                    rep.explicit_reused = true;
+                                    own_operand
+                                }
+                                _ => Some(self.fresh_untracked()),
+                            }
+                        } else {
+                            None
+                        };
                         want.rid = if has_rid { rid_explicit } else { None };
                         rep.explicit_rid = rid_explicit;
                         let mut a = ArgSrc::new(want.rtype, rid_explicit, groups, ip);
